@@ -62,6 +62,7 @@ type Sched struct {
 	Strategy  string  `json:"strategy"`
 	Decisions []int   `json:"decisions,omitempty"`
 	JumpProb  float64 `json:"jump_prob,omitempty"`
+	DelayProb float64 `json:"delay_prob,omitempty"`
 	MaxSteps  int     `json:"max_steps,omitempty"`
 	MaxSimSec int     `json:"max_sim_sec,omitempty"`
 	EstLen    int     `json:"est_len,omitempty"`
@@ -175,7 +176,7 @@ func pickStrategy(r *Rand) string { return strategies[r.Intn(len(strategies))] }
 // Bubble runs root as the root task of one simulated execution.
 func (e *Env) Bubble(sc Sched, root func()) SimResult {
 	cfg := simrt.Config{Seed: sc.Seed, Strategy: sc.Strategy, Decisions: sc.Decisions, MaxSteps: sc.MaxSteps,
-		MaxSim: time.Duration(sc.MaxSimSec) * time.Second, EstLen: sc.EstLen, JumpProb: sc.JumpProb,
+		MaxSim: time.Duration(sc.MaxSimSec) * time.Second, EstLen: sc.EstLen, JumpProb: sc.JumpProb, DelayProb: sc.DelayProb,
 		Trace: e.full, Record: e.full}
 	var res SimResult
 	func() {
@@ -230,6 +231,12 @@ func (e *Env) absorb(res *SimResult) {
 	r.Switches += s.Switches
 	r.Advances += s.Advances
 	r.Jumps += s.JumpsN
+	if s.Delayed > 0 {
+		if r.Faults == nil {
+			r.Faults = map[string]int{}
+		}
+		r.Faults["goroutine-start-delayed"] += s.Delayed
+	}
 	r.SimNs += int64(s.SimElapsed())
 	if s.MaxTasks > r.MaxTasks {
 		r.MaxTasks = s.MaxTasks
